@@ -1,5 +1,7 @@
 import J5V.Walker.ParserLink
 import J5V.Walker.PP.Entity
+import J5V.Walker.TextRoundtrip
+import J5V.Generated.BclunicodeFacts
 import J5V.Walker.WalkCex
 import J5V.Walker.TermCheck
 import J5V.Walker.Facts
@@ -276,5 +278,53 @@ example : ∃ f, parseFile asciiCls (ofAscii "object Foo Bar Baz {\n}\n") true =
       (walkSchema j5Env f.body (stub j5Env [97])).errPos = some ⟨⟨0, 11⟩, ⟨0, 17⟩⟩ :=
     tree_of_match (by rw [j5Env_nf]; decide +kernel)
   exact ⟨f, hf, C07W_parse_body_ordered _ _ _ f hf, C07W_parse_types_ok _ _ _ f hf, he⟩
+
+
+/-! ## Acceptance from source TEXT
+
+`printJ5s ast` (`Walker/PrintText.lean`) is the text the harness printer `j5sgen.PrintFile` writes in its plain style:
+one statement per line, two spaces per open block, single spaces between tokens, `type:qualifier`, strings quoted,
+a blank line after `package`, after the imports, after every element and in front of nested schemas. The stream
+`walker.print` compares it byte for byte with the Go printer's text on every op. `ClsAscii cls`: the classifier agrees
+with ASCII on runes < 128 (letters, digits, white space) — Go's tables do: `C07W_src_ascii_class`. -/
+
+/-- **C07W, text round trip.** For every file `ast` of the fragment `supported`, the BCL parser (either mode)
+accepts the plain-style text `printJ5s ast`, and the syntax tree it builds is `toBcl ast` up to positions. (Proof:
+the text is `renderFile plainGap (toBcl ast)`; `toBcl ast` is well formed for the lexer and the walker
+(`toBcl_textOK`); `tree_text_roundtrip` — the C09 machinery: the text lexes to the canonical tokens, the BCL walker
+reads them back, `fragmentsToFile` inverts the flattening.) -/
+theorem C07W_text_roundtrip (cls : Cls) (hcls : ClsAscii cls) (ast : J5V.Compile.SrcFile)
+    (h : supported ast = true) (ff : Bool) :
+    ∃ t, parseFile cls (printJ5s ast) ff = .tree t ∧
+      Statement.eraseList t.body = Statement.eraseList (toBcl ast) :=
+  text_roundtrip cls hcls ast h ff
+
+/-- the schema walker does not look at positions: two statement lists equal up to positions give the same result up
+to the position of the error -/
+theorem C07W_walk_position_free (env : Env) (body body' : List Statement) (msg : Node)
+    (he : Statement.eraseList body' = Statement.eraseList body) :
+    (walkSchema env body' msg).dropPos = (walkSchema env body msg).dropPos :=
+  walkSchema_dropPos_of_erase_eq env body body' msg he
+
+/-- **C07W, acceptance from source text.** Every file of the documented fragment, written in the plain style, is
+accepted and denotes its SourceDef: `ParseFile` of `printJ5s ast` gives a tree, and the walk of that tree over the stub
+of `filename` returns exactly `toMsg filename ast`. (`C07W_text_roundtrip` + `C07W_walk_position_free` +
+`C07W_print_parse`.) -/
+theorem C07W_text_parse_walk (cls : Cls) (hcls : ClsAscii cls) (filename : Str)
+    (ast : J5V.Compile.SrcFile) (h : supported ast = true) (ff : Bool) :
+    ∃ t, parseFile cls (printJ5s ast) ff = .tree t ∧
+      walkSchema j5Env t.body (stub j5Env filename) = .ok (toMsg filename ast) :=
+  text_parse_walk cls hcls filename ast h ff
+
+/-- in Go's tables the ASCII runes are classified as `asciiCls` classifies them (bit 1 = `unicode.IsSpace`, 2 =
+`IsDigit`, 4 = `IsLetter`): the hypothesis `ClsAscii` of the text theorems holds for the real classifier -/
+theorem C07W_src_ascii_class :
+    (List.range 128).all (fun r =>
+      let b := J5V.Generated.Bclunicode.asciiClass.getD r 0
+      decide ((b % 2 = 1) = (asciiCls.isSpace r = true)) &&
+      decide ((b / 2 % 2 = 1) = (asciiCls.isDigit r = true)) &&
+      decide ((b / 4 % 2 = 1) = (asciiCls.isLetter r = true))) = true := by decide
+
+example : ClsAscii asciiCls := asciiCls_clsAscii
 
 end J5V.Props.C07Walker
